@@ -614,6 +614,7 @@ pub fn run_c29(tier: Tier, seed: u64) -> i32 {
     let mut by_kind: BTreeMap<String, u64> = BTreeMap::new();
     let mut by_class: BTreeMap<String, u64> = BTreeMap::new();
     let mut slowest: (u64, String) = (0, String::new());
+    let mut confirmations = 0usize;
     for (sh, so) in &outcomes {
         for v in &so.lines {
             let i = v["i"].as_u64().unwrap_or(0) as usize;
@@ -653,6 +654,12 @@ pub fn run_c29(tier: Tier, seed: u64) -> i32 {
         }
         for i in &so.timeouts {
             let inp = gen_input(seed, *sh, *i, &db);
+            // every confirmation may take CONFIRM_WATCHDOG: confirm a few per run, count the rest
+            confirmations += 1;
+            if confirmations > 4 {
+                rep.inconclusive("watchdog-expiry-not-confirmed(confirmation budget spent)");
+                continue;
+            }
             // confirm alone with a much longer limit
             let progress = dir.join(format!("confirm.{}.{}", sh, i));
             let o = spawn_worker(tier, seed, *sh, *i, &progress, true);
@@ -702,4 +709,15 @@ fn clip_long(s: &str) -> String {
     } else {
         s.to_string()
     }
+}
+
+
+/// Debug aid: print input SHARD/INDEX of seed SEED (env), e.g. to look at one a worker is stuck on.
+pub fn print_input() -> i32 {
+    let g = |k: &str| std::env::var(k).ok().and_then(|s| s.parse::<u64>().ok()).unwrap_or(0);
+    let (seed, shard, idx) = (g("SEED").max(1), g("SHARD") as usize, g("INDEX") as usize);
+    let db = fuzz_db(seed);
+    let i = gen_input(seed, shard, idx, &db);
+    println!("class={} form={} chars={}\n{}", i.class, i.form, i.sql.chars().count(), i.sql.chars().take(600).collect::<String>());
+    0
 }
